@@ -142,6 +142,46 @@ def e2e(ctx):
                        "expected_exit": exp[0], "expected_invocations": exp[1]})
 
 
+def surroundings(ctx):
+    """the exit status is a function of the children's outcomes - not of the signal dispositions xargs inherits (SIGCHLD ignored: the
+    kernel would reap the children itself) nor of whether its diagnostics can be written (standard error on a full device)"""
+    import signal
+    import subprocess
+    with tempfile.TemporaryDirectory(prefix="c19s-", dir=fw.BUILD) as td:
+        for name, outs, opts, want_rc, want_runs in (("all-ok", [], ["-n1"], 0, 3), ("one-fails", ["0", "3"], ["-n1"], 123, 3), ("urgent", ["0", "255"], ["-n1"], 124, 2),
+                                                      ("killed", ["0", "kill"], ["-n1"], 125, 2), ("verbose", [], ["-n1", "-t"], 0, 3),
+                                                      ("warning", [], ["-L1", "-n1"], 0, 3)):
+            for how in ("sigchld-ignored", "stderr-full", "stderr-closed-pipe"):
+                rec = os.path.join(td, "rec")
+                if os.path.exists(rec):
+                    os.remove(rec)
+                env = dict(xc.ENV, FUV_RECORD=rec, FUV_EXIT_MAP=",".join("%d:%s" % (i, o) for i, o in enumerate(outs)))
+                kw = {}
+                if how == "sigchld-ignored":
+                    kw["preexec_fn"] = lambda: signal.signal(signal.SIGCHLD, signal.SIG_IGN)
+                    kw["stderr"] = subprocess.DEVNULL
+                elif how == "stderr-full":
+                    kw["stderr"] = open("/dev/full", "wb")
+                else:
+                    r, w = os.pipe()
+                    os.close(r)
+                    kw["stderr"] = w
+                try:
+                    p = subprocess.run([fw.XARGS] + opts + [fw.FUV, "record"], input=b"a\nb\nc\n", stdout=subprocess.DEVNULL, env=env, timeout=60, **kw)
+                finally:
+                    if how == "stderr-full":
+                        kw["stderr"].close()
+                    elif how == "stderr-closed-pipe":
+                        os.close(kw["stderr"])
+                runs = sum(1 for _ in open(rec)) if os.path.exists(rec) else 0
+                ctx.count(("surroundings", name, how), True, "surroundings")
+                if (p.returncode, runs) != (want_rc, want_runs):
+                    ctx.violation("xargs %s CMD, outcomes %s, %s: exit %d after %d invocation(s); expected %d after %d"
+                                  % (" ".join(opts), outs or ["0", "0", "0"], how, p.returncode, runs, want_rc, want_runs),
+                                  {"property": "C19", "kind": "surroundings", "options": opts, "outcomes": outs, "condition": how, "exit": p.returncode,
+                                   "invocations": runs, "expected_exit": want_rc, "expected_invocations": want_runs})
+
+
 def run(ctx):
     rng = ctx.rng
     cases = [gen_case(rng) for _ in range(40000 if ctx.thorough else 3000)]
@@ -150,6 +190,7 @@ def run(ctx):
         ctx.sample({"options": c04.opts_of(c), "input": xc.render(c["toks"])[0].decode(), "outcomes": c["outs"], "unterminated_quote": c["quote"]})
     report(ctx, bad)
     e2e(ctx)
+    surroundings(ctx)
 
 
 def replay(ctx, rep):
